@@ -54,6 +54,9 @@ const prelude2 = `(define-fun protected ((r Ref)) Bool (and (< (root r) 0) (> (r
 `
 
 func queryText(vc *FuncVC, o *Obligation, withModel bool) string {
+	if o.Raw != "" {
+		return o.Raw
+	}
 	var sb strings.Builder
 	sb.WriteString(prelude)
 	sb.WriteString(prelude2)
